@@ -52,7 +52,15 @@ ArrArms == <<
   (* element patterns on BOTH sides of the spread, no guard: they need at least #head + #tail elements (a vector that is *)
   (* long enough for the head alone and for the tail alone, but not for both, must fall through to a later arm)          *)
   Arm(PArr(<<SVar("p")>>, "anon", "", <<SVar("q")>>), GNone, Plus("q", 380)),
-  Arm(PArr(<<SVar("a"), SVar("b")>>, "anon", "", <<SVar("c")>>), GNone, Plus("c", 390)) >>
+  Arm(PArr(<<SVar("a"), SVar("b")>>, "anon", "", <<SVar("c")>>), GNone, Plus("c", 390)),
+  (* SEVERAL element patterns after the spread: they are aligned with the END of the vector in their written order         *)
+  (* ([... a b] binds a to the last but one element and b to the last); each arm reads another of its variables            *)
+  Arm(PArr(<<>>, "anon", "", <<SVar("a"), SVar("b")>>), GNone, Plus("a", 500)),
+  Arm(PArr(<<>>, "anon", "", <<SVar("a"), SVar("b")>>), GNone, Plus("b", 510)),
+  Arm(PArr(<<SVar("x")>>, "anon", "", <<SVar("a"), SVar("b")>>), GNone, Plus("a", 520)),
+  Arm(PArr(<<>>, "anon", "", <<SLit(0), SVar("b")>>), GNone, Plus("b", 530)),
+  Arm(PArr(<<>>, "anon", "", <<SVar("a"), SVar("b"), SVar("c")>>), GNone, Plus("a", 540)),
+  Arm(PArr(<<>>, "anon", "", <<SVar("a"), SLit(1)>>), GNone, Plus("a", 550)) >>
 EnumArms == <<
   Arm(PEnum("circle", <<SLit(0)>>), GNone, ELit(400)),
   Arm(PEnum("circle", <<SVar("r")>>), GNone, Plus("r", 410)),
@@ -64,7 +72,7 @@ EnumArms == <<
 Fams == {"scalar", "pair", "arr", "enum"}
 FamArms(f) == CASE f = "scalar" -> ScalarArms [] f = "pair" -> PairArms [] f = "arr" -> ArrArms [] f = "enum" -> EnumArms
 (* function arms have no guard syntax: the guarded arms exist only in match expressions *)
-FnIds(f)    == CASE f = "scalar" -> 1..5 [] f = "pair" -> (1..6) \cup (10..14) [] f = "arr" -> (1..7) \cup {9, 10} [] f = "enum" -> 1..5
+FnIds(f)    == CASE f = "scalar" -> 1..5 [] f = "pair" -> (1..6) \cup (10..14) [] f = "arr" -> (1..7) \cup (9..16) [] f = "enum" -> 1..5
 MatchIds(f) == 1..Len(FamArms(f))
 Forms(f) == IF f = "pair" THEN {"fn", "fn1t", "match"} ELSE {"fn", "match"}
 Ids(f, form) == IF form = "match" THEN MatchIds(f)
